@@ -742,9 +742,13 @@ class CSSStyleSheet(cssutils.stylesheets.StyleSheet):
                             index = len(self._cssRules) - i
                             break
                 else:
-                    # find first point to insert
+                    # find first point to insert, but after @charset/@import
+                    last = -1
                     for i, r in enumerate(self._cssRules):
-                        if r.type in (
+                        if r.type in (r.CHARSET_RULE, r.IMPORT_RULE):
+                            last = i
+                    for i, r in enumerate(self._cssRules):
+                        if i > last and r.type in (
                             r.VARIABLES_RULE,
                             r.MEDIA_RULE,
                             r.PAGE_RULE,
